@@ -795,7 +795,7 @@ def find_slot_paths(facts, adt, type_rx, depth=0):
     return out
 
 
-def lift_sites(facts, g, bb, depth=0):
+def lift_sites(facts, g, bb, depth=0, std=False):
     """A site inside a private helper or a closure is judged in the function(s) it serves: a closure belongs to the function it is written
     in; a private, non-trait function is replaced by its callers in the same file (each of them, when there are several); the site is then
     found in each such function's body with the helpers and closures of its file spliced in.  -> list of (function to analyse, block)"""
@@ -826,9 +826,12 @@ def lift_sites(facts, g, bb, depth=0):
         if top.id == g.id and g.rec.get("impl_trait") != T_DROP:
             out.append((g, bb)); continue
         # (a destructor is judged with the private helpers of its file spliced in, but not the Read impls it drains through)
-        if top.id not in cache:
-            cache[top.id] = inline.inlined(facts, top.id, stop=lambda d, top=top: facts.fns[d].rec.get("local") and (facts.fns[d].file != top.file or (facts.fns[d].rec.get("impl_trait") == T_READ and d != g.id and d != top.id)))
-        R = cache[top.id]
+        ck = (top.id, std)
+        if ck not in cache:
+            import queue_rules as Q_
+            cache[ck] = inline.inlined(facts, top.id, stop=lambda d, top=top: facts.fns[d].rec.get("local") and (facts.fns[d].file != top.file or (facts.fns[d].rec.get("impl_trait") == T_READ and d != g.id and d != top.id)),
+                                       extern_ok=Q_.std_small if std else None)
+        R = cache[ck]
         hit = [b for b in range(R.n) if R.blocks[b].get("src") == g.id and R.blocks[b].get("obb") == bb and not R.blocks[b].get("synthetic")]
         if hit:
             out += [(R, b) for b in hit[:1]]
